@@ -115,13 +115,58 @@ def mutants(argv):
     return 2 if bad else 0
 
 
+def oracle(argv):
+    """known-answer test of the trusted base: the operator-derived extinction rule of xsim.oracle_hkl, applied to the
+    tree's own tables, must reproduce the reflection conditions of International Tables A for a few well-known groups"""
+    import numpy as np
+    core.import_xfab()
+    from xfab import sg
+    from . import oracle_hkl as O
+    r = np.arange(-7, 8)
+    H, K, L = np.meshgrid(r, r, r, indexing="ij")
+    P = np.stack([H.ravel(), K.ravel(), L.ravel()], axis=1)
+    P = P[np.any(P != 0, axis=1)]
+    h, k, l = P[:, 0], P[:, 1], P[:, 2]
+    ev = lambda x: x % 2 == 0   # noqa
+    rules = {
+        (225, "standard"): (ev(h) == ev(k)) & (ev(k) == ev(l)),
+        (229, "standard"): ev(h + k + l),
+        (221, "standard"): np.ones(len(P), bool),
+        (62, "standard"): ~(((h == 0) & ~ev(k + l)) | ((l == 0) & ~ev(h))),
+        (14, "standard"): ~(((k == 0) & ~ev(l)) | ((h == 0) & (l == 0) & ~ev(k))),
+        (194, "standard"): ~(((h == k) | (h == -2 * k) | (k == -2 * h)) & ~ev(l)),
+        (167, "standard"): ((-h + k + l) % 3 == 0) & ~((h == -k) & ~ev(l)) & ~((k == 0) & ~ev(l)) & ~((h == 0) & ~ev(l)),
+        (227, "standard"): ((ev(h) == ev(k)) & (ev(k) == ev(l))) & ~((h == 0) & ((k + l) % 4 != 0)) &
+                           ~((k == 0) & ((h + l) % 4 != 0)) & ~((l == 0) & ((h + k) % 4 != 0)),
+    }
+    bad = 0
+    for (no, cc), allowed in sorted(rules.items()):
+        g = sg.sg(sgno=no, cell_choice=cc)
+        ext = O.extinct_mask(P, np.array(g.rot), np.array(g.trans))
+        diff = int(np.sum(ext == allowed))          # ext must be the complement of allowed
+        print("oracle known-answer sg %d (%s): %d of %d hkl disagree with International Tables" % (no, g.name, diff, len(P)))
+        bad += diff
+    # sin(theta)/lambda against d-spacing formulas
+    Gs = O.recip_metric([4.0, 4.0, 4.0, 90, 90, 90])
+    s111 = float(O.stl_of(np.array([[1, 1, 1]]), Gs)[0])
+    ok = abs(s111 - (3 ** 0.5) / 8.0) < 1e-15
+    Gs = O.recip_metric([3.0, 3.0, 5.0, 90, 90, 120])
+    s100 = float(O.stl_of(np.array([[1, 0, 0]]), Gs)[0])
+    ok = ok and abs(s100 - 1.0 / (2 * 3.0 * (3 ** 0.5) / 2)) < 1e-15
+    print("oracle sin(theta)/lambda closed forms: %s" % ("ok" if ok else "WRONG"))
+    print("oracle selftest: %s" % ("ok" if (bad == 0 and ok) else "FAILED"))
+    return 0 if (bad == 0 and ok) else 2
+
+
 def main(argv):
     if not argv:
-        print("usage: selftest determinism|mutants ...")
+        print("usage: selftest determinism|mutants|oracle ...")
         return 2
     if argv[0] == "determinism":
         return determinism(argv[1:])
     if argv[0] == "mutants":
         return mutants(argv[1:])
+    if argv[0] == "oracle":
+        return oracle(argv[1:])
     print("unknown selftest %r" % argv[0])
     return 2
